@@ -213,3 +213,38 @@ Proof.
     eapply VR_seq; [apply VR_plain_r | apply VR_ret].
   - cbn. intros [H|[H|H]]; try discriminate; contradiction.
 Qed.
+
+(* ------------------------------------------------------------------ warm threads cannot race on the caches *)
+Definition vconflict (a b : vev) : Prop :=
+  match a, b with
+  | VWr n, VWr n' | VWr n, VRd n' | VRd n, VWr n' => n = n'
+  | _, _ => False
+  end.
+
+(* any number of threads, each performing calls of the checked cache functions in which no guard flag is observed zero: no two
+   events of any two of them conflict (same non-atomic static, at least one write) - whatever the interleaving, because there is
+   no write at all.  The remaining shared accesses are atomic operations (VTau) and reads. *)
+Theorem warm_threads_race_free : forall eps (ts : list (list vev)),
+  vcheck_program eps = [] ->
+  (forall t, In t ts -> exists name s fl, In (name, s) eps /\ vexec s t fl /\ forall g, ~ In (VZero g) t) ->
+  forall t1 t2 a b, In t1 ts -> In t2 ts -> In a t1 -> In b t2 -> ~ vconflict a b.
+Proof.
+  intros eps ts Hc Hall t1 t2 a b H1 H2 Ha Hb Hcf.
+  destruct (Hall t1 H1) as [n1 [s1 [f1 [I1 [E1 W1]]]]]. destruct (Hall t2 H2) as [n2 [s2 [f2 [I2 [E2 W2]]]]].
+  destruct a, b; cbn in Hcf; try contradiction.
+  - exact (warm_no_plain_writes eps n1 s1 t1 f1 Hc I1 E1 W1 _ Ha).
+  - exact (warm_no_plain_writes eps n1 s1 t1 f1 Hc I1 E1 W1 _ Ha).
+  - exact (warm_no_plain_writes eps n2 s2 t2 f2 Hc I2 E2 W2 _ Hb).
+Qed.
+
+(* non-vacuity: two warm calls of the info()-shaped function *)
+Example warm_threads_race_free_sat :
+  let t := [VTau; VRd "VirtMem::info::vm_info"] in
+  vcheck_program [("f", info_like)] = [] /\ vexec info_like t false /\ (forall g, ~ In (VZero g) t) /\ In (VRd "VirtMem::info::vm_info") t.
+Proof.
+  cbv zeta. split; [reflexivity|]. split; [|split].
+  - unfold info_like. eapply VX_fn. change [VTau; VRd "VirtMem::info::vm_info"] with (([VTau] ++ ([] ++ ([VRd "VirtMem::info::vm_info"] ++ [])))%list).
+    eapply VX_seq; [apply VX_atomic|]. eapply VX_seq; [apply VX_guard_skip|]. eapply VX_seq; [apply VX_plain_r | apply VX_ret].
+  - intros g [H|[H|[]]]; discriminate.
+  - right. left. reflexivity.
+Qed.
